@@ -32,7 +32,7 @@ ChainOK == [][lastD' /= lastD =>
                /\ (lastD = <<>> => (lastD'[1] = "NC" \/ lastD'[3] > 0))]_vars
 
 (* once everything has drained, the last delivered notification agrees with State() *)
-Quiescent == q = <<>> /\ sup = <<"idle", "-", "-">> /\ notify = <<>> /\ cm = "none"
+Quiescent == q = <<>> /\ sup = Idle /\ notify = <<>> /\ cm = "none"
 FinalAgrees == (Quiescent /\ lastD /= <<>>) => lastD[2] = Obs(st)
 FinalAgrees0 == (Quiescent /\ lastD = <<>> /\ dropped = 0) => Obs(st) = "NC"
 =============================================================================
